@@ -240,3 +240,24 @@ def gpacker_direct(h0: int, sp: int, s0: int, s1: int, target: int, nh: bool) ->
     post: _
     """
     return _gpacker('direct_noholes' if nh else 'direct', h0, sp, s0, s1, target)
+
+
+from harness.h_crash import _perm  # noqa: E402
+
+
+def perm_pack(h0: int, sp: int, s0: int, s1: int, target: int, at: int, clean: bool) -> bool:
+    """
+    pre: 0 <= h0 <= 1 and 1 <= sp <= 100 and 1 <= s0 <= 70000 and 1 <= s1 <= 100 and 1 <= target <= 70200
+    pre: 1 <= at <= 8
+    post: _
+    """
+    return _perm('pack_clean' if clean else 'pack', h0, sp, s0, s1, target, at)
+
+
+def perm_other(h0: int, sp: int, s0: int, s1: int, target: int, at: int, which: int) -> bool:
+    """
+    pre: 0 <= h0 <= 1 and 1 <= sp <= 100 and 1 <= s0 <= 70000 and 1 <= s1 <= 100 and 1 <= target <= 70200
+    pre: 1 <= at <= 8 and 0 <= which <= 2
+    post: _
+    """
+    return _perm(('loose', 'repack', 'import')[which], h0, sp, s0, s1, target, at)
